@@ -11,6 +11,7 @@ from __future__ import annotations
 
 import hashlib
 import json
+import urllib.parse
 import os
 
 from .. import clock as simclock
@@ -212,6 +213,25 @@ class Oracle:
             sim.violate(rule, f"after={opname}", f"{detail}; introduced by {msg.method} {msg.url} -> {resp.status}")
         if before is None:
             return
+        # a write to one multi-period stream leaves the periods of every other one alone
+        if opname in ("add_mps", "edit_mps") and msg.method in ("PUT", "POST"):
+            pb = {r["pk"]: r for r in table_dicts(before, "period")}
+            pa = {r["pk"]: r for r in table_dicts(after, "period")}
+            touched = {(pa.get(k) or pb.get(k))["parent_pk"] for k in set(pa) | set(pb) if pa.get(k) != pb.get(k)}
+            touched |= {pb[k]["parent_pk"] for k in pb if k in pa and pa[k]["parent_pk"] != pb[k]["parent_pk"]}
+            name = urllib.parse.unquote(urllib.parse.urlsplit(msg.url).path.rsplit("/", 1)[-1])
+            try:
+                body_name = json.loads(msg.body or b"{}").get("name")
+            except (ValueError, AttributeError):
+                body_name = None
+            mine = {r["pk"] for st in (before, after) for r in table_dicts(st, "mp_stream")
+                    if r["name"] in (name, body_name)}
+            sim.check("c17-mps-write-scope")
+            foreign = touched - mine
+            if foreign:
+                sim.violate("mps-write-touched-foreign-period", opname,
+                            f"{msg.method} {msg.url} (name {body_name or name!r}) changed periods of multi-period "
+                            f"stream(s) {sorted(foreign)}")
         # ownership of deletions
         if msg.method in ("DELETE", "POST") and opname.startswith("delete"):
             removed = {}
